@@ -120,7 +120,10 @@ class RecWalker(h5spec.Walker):
         code, mine = KINDS[kind]
         if tags is None:
             tags = {t for t, _, _ in self.dev[dev0:]}
-        tags = sorted(set(tags) & mine, key=lambda t: TAGS[t])
+        if isinstance(tags, list):
+            tags = [t for t in tags if t in mine]      # datatypes: the deviations in the order met, one per nested description (as the Coq decoder lists them)
+        else:
+            tags = sorted(set(tags) & mine, key=lambda t: TAGS[t])
         self.structs.append(dict(kind=kind, ctx=[int(x) for x in ctx], bytes=bytes(raw), tags=tags, fields=fields, where=str(where)[:80]))
 
     def rej(self, kind, ctx, raw, e, where=""):
@@ -136,7 +139,8 @@ class RecWalker(h5spec.Walker):
             self.rej(kind, ctx, raw, e, where)
             raise
         tags = {t for t, _, _ in self.dev[d0:]}
-        self.rec(kind, ctx, raw, d0, (lambda: fields(res, tags)), where, tags=tags)      # fields are built only for sampled structures
+        tl = [t for t, _, _ in self.dev[d0:]] if kind in ("msg-datatype", "msg-attribute") else tags
+        self.rec(kind, ctx, raw, d0, (lambda: fields(res, tags)), where, tags=tl)      # fields are built only for sampled structures
         return res
 
     # -- level 0
